@@ -144,6 +144,27 @@ pub fn run(progs: &str, seed: u64, scheds: usize, out: &str) -> std::io::Result<
             t.ev(json!({"ev":"c16_rfault","at":i,"fired": if rdev.faulted() {1} else {0},"hit":hit,"panicked": if panicked {1} else {0}}));
         }
         // ---- chunking schedules: short writes while writing, short reads while reading
+        // (d) the retryable error kind on the reading side: every operation fails or returns what it returns without the fault
+        for i in 0..nops_r {
+            let rdev = Dev::from_bytes(reference.clone());
+            rdev.0.borrow_mut().fault_interrupted = true;
+            rdev.set_fault(Some(i));
+            let mut tt = TraceOut::create("/dev/null")?;
+            tt.keep = Some(Vec::new());
+            run_reader_on(&rdev, &ops, &ctx, &mut tt);
+            let evs = tt.keep.take().unwrap();
+            let panicked = evs.iter().any(|e| e["res"].get("panic").is_some());
+            let mut bad: Vec<Value> = Vec::new();
+            for (k, e) in evs.iter().enumerate() {
+                let same = ref_reads0.get(k) == Some(e);
+                let is_err = e["res"].get("err").is_some();
+                if !(same || is_err) {
+                    bad.push(json!([k, e["ev"]]));
+                }
+            }
+            t.ev(json!({"ev":"c16_rintr","at":i,"fired": if rdev.faulted() {1} else {0},"panicked": if panicked {1} else {0},
+                        "nbad": bad.len(), "bad": bad, "nops": evs.len()}));
+        }
         let ref_reads = read_digest(&reference, &ops, &ctx, vec![]);
         for s in 0..scheds {
             let sched: Vec<usize> = match s {
